@@ -264,3 +264,22 @@ impl Dialect {
 }
 
 pub type BracketPair = (&'static str, &'static str, &'static str, bool);
+
+/// Verification hooks (only with `--cfg sqruff_verif`): read-only iteration over the dialect tables.
+#[cfg(sqruff_verif)]
+impl Dialect {
+    pub fn verif_library(&self) -> impl Iterator<Item = (&str, Option<&Matchable>)> {
+        self.library.iter().map(|(k, v)| {
+            (
+                k.as_ref(),
+                match v {
+                    DialectElementType::Matchable(m) => Some(m),
+                    DialectElementType::SegmentGenerator(_) => None,
+                },
+            )
+        })
+    }
+    pub fn verif_sets(&self) -> impl Iterator<Item = (&'static str, &AHashSet<&'static str>)> {
+        self.sets.iter().map(|(k, v)| (*k, v))
+    }
+}
